@@ -299,9 +299,11 @@ def model_checking(run):
     never, taken = None, set()
     cfgs = (["MC_FileLogger_thorough.cfg", "MC_FileLogger_env_thorough.cfg", "MC_FileLogger_duo_thorough.cfg"] if th else
             ["MC_FileLogger.cfg", "MC_FileLogger_env.cfg", "MC_FileLogger_duo.cfg"])
-    # quick: the three configurations side by side (a few workers each); thorough: one after the other
-    with ThreadPoolExecutor(max_workers=1 if th else 3) as pool:
-        outs = list(pool.map(lambda cfg: run.mc("MC_FileLogger", cfg=cfg, workers=run.pick(3, 12), coverage=True), cfgs))
+    # quick: the three configurations side by side (a few workers each); thorough: the two small ones, one after
+    # the other, beside the large one
+    with ThreadPoolExecutor(max_workers=2 if th else 3) as pool:
+        outs = list(pool.map(lambda cfg: run.mc("MC_FileLogger", cfg=cfg, coverage=True, heap="10g" if th else None,
+                                                workers=run.pick(3, 10 if cfg == cfgs[0] else 4)), cfgs))
     for cfg, r in zip(cfgs, outs):
         rec = [x for x in run.mc_runs if x["cfg"] == cfg][-1]
         z = set(rec.get("actions_never_taken") or [])
